@@ -10,11 +10,12 @@ program of the kernel model (`OnlVerif/Kernel`): the generator `Port.run` and a 
 scheduling: `K`'s `step` decides what runs when.  `OnlVerif/Props/C09K.lean` proves that every run of this program
 is an admissible run of the LTS (refinement) and satisfies the departure recurrence.
 
-Encoding (plain `Port`: `qlimit = None`, no RED, `element_id` falsy, an `out` is attached):
+Encoding (`Port` without RED, `element_id` falsy, an `out` is attached; `qlimit` is `None` or a limit in bytes
+(`limit_bytes = True`) — the packet-count limit reads `len(self.store.items)`, which no kernel call of the model exposes):
 
 * a packet is its `Int` id; `size : Int → Nat` gives `packet.size`; the store is resource `0` (unbounded `Store`);
 * the public attributes live in the shared cells of `K` (`Call.load/store`):
-  cell 0 = `byte_size`, 1 = `packets_received`, 2 = `busy`, 3 = `busy_packet_size`;
+  cell 0 = `byte_size`, 1 = `packets_received`, 2 = `busy`, 3 = `busy_packet_size`, 4 = `packets_dropped`;
 * `self.out.put(packet)` is the observation `log "out" (int id)` (recorded with `env.now` in `KState.trace`);
 * the source is the process `for (gap, id) in arrivals: yield env.timeout(gap); port.put(packet id)`.
 -/
@@ -38,6 +39,7 @@ def cByteSize : Nat := 0
 def cReceived : Nat := 1
 def cBusy : Nat := 2
 def cBusySize : Nat := 3
+def cDropped : Nat := 4
 
 def typeErr : Exc := ⟨"TypeError", []⟩
 
@@ -52,14 +54,25 @@ def loadInt (k : Nat) (cont : Int → Burst τ (PSt τ)) : Burst τ (PSt τ) :=
     | .val (.int n) => cont n
     | rp => bad rp
 
-/-- `Port.put(packet)` with `qlimit is None` and a falsy `element_id`, followed by `cont` -/
-def portPut (size : Int → Nat) (id : Int) (cont : Burst τ (PSt τ)) : Burst τ (PSt τ) :=
-  loadInt cReceived fun n =>
-  .call (.store cReceived (.int (n + 1))) fun _ =>              -- self.packets_received += 1
-  loadInt cByteSize fun b =>                                    -- byte_count = self.byte_size + packet.size
+/-- the accepting branch of `Port.put`: `self.byte_size = byte_count; self.store.put(packet)` -/
+def portAccept (size : Int → Nat) (id : Int) (b : Int) (cont : Burst τ (PSt τ)) : Burst τ (PSt τ) :=
   .call (.store cByteSize (.int (b + (size id : Int)))) fun _ =>   -- self.byte_size = byte_count
   .call (.sput storeId id) fun _ =>                             -- self.store.put(packet)
   cont
+
+/-- `Port.put(packet)` with a falsy `element_id` and `limit_bytes = True`, followed by `cont` -/
+def portPut (size : Int → Nat) (qlimit : Option Int) (id : Int) (cont : Burst τ (PSt τ)) : Burst τ (PSt τ) :=
+  loadInt cReceived fun n =>
+  .call (.store cReceived (.int (n + 1))) fun _ =>              -- self.packets_received += 1
+  loadInt cByteSize fun b =>                                    -- byte_count = self.byte_size + packet.size
+  match qlimit with
+  | none => portAccept size id b cont                           -- if self.qlimit is None: …; return
+  | some ql =>
+    if ql < b + (size id : Int) then                            -- if self.limit_bytes and byte_count > self.qlimit:
+      loadInt cDropped fun d =>
+      .call (.store cDropped (.int (d + 1))) fun _ =>           --   self.packets_dropped += 1
+      cont
+    else portAccept size id b cont                              -- else: …
 
 /-- the source loop from its head: `for gap, id in rest: yield env.timeout(gap); …` -/
 def srcLoop : List (τ × Int) → Burst τ (PSt τ)
@@ -97,11 +110,11 @@ def portServe (size : Int → Nat) (rate : τ) (id : Int) : Burst τ (PSt τ) :=
   else portDone size id
 
 /-- the two generator functions as one `K` program -/
-def body (size : Int → Nat) (rate : τ) : PSt τ → Resume → Burst τ (PSt τ)
+def body (size : Int → Nat) (rate : τ) (qlimit : Option Int) : PSt τ → Resume → Burst τ (PSt τ)
   | .src pending rest, _ =>
     match pending with
     | none => srcLoop rest
-    | some id => portPut size id (srcLoop rest)
+    | some id => portPut size qlimit id (srcLoop rest)
   | .portStart, _ => portLoop
   | .portGet, .value (.int id) => portServe size rate id
   | .portGet, _ => .raise typeErr
@@ -116,7 +129,7 @@ and `env.process(source(...))` -/
 def initState (arrivals : List (τ × Int)) : KState τ (PSt τ) :=
   [Call.spawn PSt.portStart, Call.spawn (PSt.src none arrivals)].foldl (fun s c => (doCall s 0 c).1)
     { now := Num.zero, resources := #[{ kind := .store, capacity := none }],
-      shared := [(cByteSize, .int 0), (cReceived, .int 0), (cBusy, .int 0), (cBusySize, .int 0)] }
+      shared := [(cByteSize, .int 0), (cReceived, .int 0), (cBusy, .int 0), (cBusySize, .int 0), (cDropped, .int 0)] }
 
 /-- the `out.put(packet)` observations of a trace: `(id, env.now)` in order -/
 def outOf : Obs τ → Option (Int × τ)
@@ -135,13 +148,14 @@ def cellInt (s : KState τ (PSt τ)) (k : Nat) : Int :=
 def pktOf (size : Int → Nat) (id : Int) : Pkt τ :=
   { id := id.toNat, flow := 0, size := size id, ctime := Num.zero, draw := Num.zero }
 
-/-- configuration of the plain port -/
-def cfg (rate : τ) : PortCfg τ := { rate := rate, qlimit := none, limitBytes := false, hasId := false }
+/-- configuration of the port for the LTS -/
+def cfg (rate : τ) (qlimit : Option Int) : PortCfg τ :=
+  { rate := rate, qlimit := qlimit, limitBytes := true, hasId := false }
 
 /-- the public attributes as the LTS device state -/
 def absDev (s : KState τ (PSt τ)) : PortSt τ :=
-  { byteSize := cellInt s cByteSize, received := (cellInt s cReceived).toNat, busy := cellInt s cBusy != 0,
-    busySize := (cellInt s cBusySize).toNat, avg := Num.zero }
+  { byteSize := cellInt s cByteSize, received := (cellInt s cReceived).toNat, dropped := (cellInt s cDropped).toNat,
+    busy := cellInt s cBusy != 0, busySize := (cellInt s cBusySize).toNat, avg := Num.zero }
 
 /-- the instant at which the agenda entry of event `t` is due -/
 def dueOf (s : KState τ (PSt τ)) (t : EvId) : τ :=
